@@ -894,6 +894,10 @@ func (e *pathEngine) doCall(fr *frame, st *pathState, site ssa.CallInstruction, 
 		}
 		return outs
 	}
+	if callee != nil && callee.Blocks != nil && e.cfg.Inline != nil && e.cfg.Inline(callee) && !isDeferred {
+		// a function the rule wanted interpreted calls itself (or the inlining depth ran out): its effects are not enumerated
+		st.trace = append(st.trace, Token{Kind: "recursion", Label: FuncKey(callee), Pos: site.Pos(), Fn: fr.fn, Instr: site})
+	}
 	// not inlined
 	name := "<dynamic>"
 	if calleeObj != nil {
